@@ -18,6 +18,8 @@ open Cascette.Props.C03
 #print axioms fdid_delta_roundtrip
 #print axioms root_parse_build
 #print axioms root_resolve_eq_inserted
+#print axioms root_lookup_entries_eq_inserted
+#print axioms root_own_flags_lookup_hits
 #print axioms resolver_chain
 #print axioms tvfs_path_roundtrip_partial
 #print axioms tvfs_name_255_counter_witness
